@@ -74,9 +74,20 @@ def fileJ (f : File) : Json := listJ stmtJ f
 
 def asFeat (j : Json) : R Feat := do let p ← asPair asStr asNat j; return ⟨p.1, p.2⟩
 
+def gkindOf : String → R GKind
+  | "gcd" => pure .glyphClassDef | "idx" => pure .caretByIndex | "pos" => pure .caretByPos | "other" => pure .other
+  | k => throw s!"bad GDEF statement kind {k}"
+def gkindJ : GKind → Json
+  | .glyphClassDef => "gcd" | .caretByIndex => "idx" | .caretByPos => "pos" | .other => "other"
+
+/-- gdef step: {type:"gdef", kinds:[[uid,kind]..] (the user's statements inside `table GDEF`, read from the user's text),
+hasCats, carets (from the font description), base} -/
 def asStep (j : Json) : R Step := do
   match ← asStr (← field j "type") with
-  | "gdef" => return .gdef (← asBool (← field j "active")) (← asList asNat (← field j "items")) (← asNat (← field j "newGid"))
+  | "gdef" =>
+    let kinds ← asList (fun x => do let p ← asPair asNat asStr x; return (p.1, ← gkindOf p.2)) (← field j "kinds")
+    return .gdef { kinds, hasCats := ← asBool (← field j "hasCats"), carets := ← asNat (← field j "carets"),
+                   base := ← asNat (← field j "base") }
   | _ =>
     return .writer {
       features := ← asList asStr (← field j "features"),
@@ -99,7 +110,21 @@ def ctxs : List Step → File → List Json
   | [], _ => []
   | .writer w :: ss, f =>
     ctxJ (setContext w f) :: (match write w f with | .ok f' => ctxs ss f' | .error _ => [])
-  | .gdef a items g :: ss, f => Json.null :: ctxs ss (gdefWrite a items g f)
+  | .gdef i :: ss, f => Json.null :: ctxs ss (gdefStep i f)
+
+/-- the types of the statements each GDEF writer of the run generates (model), in the order it writes them -/
+def gdefGens : List Step → File → List Json
+  | [], _ => []
+  | .writer w :: ss, f => (match write w f with | .ok f' => gdefGens ss f' | .error _ => [])
+  | .gdef i :: ss, f => listJ gkindJ (gdefGenOf i f) :: gdefGens ss (gdefStep i f)
+
+/-- `holdsGdefGen` for every GDEF writer of the run, on the OBSERVED files (the one before that writer) and the observed
+types of the statements it added -/
+def gdefHolds : List Step → File → List File → List (List GKind) → Bool
+  | [], _, _, _ => true
+  | .writer _ :: ss, _, o :: os, gs => gdefHolds ss o os gs
+  | .gdef i :: ss, f, o :: os, g :: gs => holdsGdefGen i f g && gdefHolds ss o os gs
+  | _, _, _, _ => false
 
 /-- op "run": in = {file, steps}; obs = {err, files:[file after each writer], ctx:[…]} -/
 def run (req : Json) : R Reply := do
@@ -109,11 +134,12 @@ def run (req : Json) : R Reply := do
   let obs ← field req "obs"
   let oerr ← asOpt asStr (← field obs "err")
   let cj := Json.arr (ctxs steps f).toArray
+  let gj := Json.arr (gdefGens steps f).toArray
   match runAll steps f with
   | .error _ =>
-    return { model := Json.mkObj [("err", "ValueError"), ("files", Json.null), ("ctx", cj)], holds := oerr == some "ValueError" }
+    return { model := Json.mkObj [("err", "ValueError"), ("files", Json.null), ("ctx", cj), ("gdef", gj)], holds := oerr == some "ValueError" }
   | .ok outs =>
-    let model := Json.mkObj [("err", Json.null), ("files", listJ fileJ outs), ("ctx", cj)]
+    let model := Json.mkObj [("err", Json.null), ("files", listJ fileJ outs), ("ctx", cj), ("gdef", gj)]
     match oerr with
     | some _ => return { model, holds := false }
     | none =>
@@ -125,7 +151,11 @@ def run (req : Json) : R Reply := do
       -- text level: the user's statements (with the names of the enclosing blocks) are a subsequence of the output's
       let ut : List String ← match obs.getObjVal? "utext" with | .ok x => asList asStr x | .error _ => pure []
       let ot : List String ← match obs.getObjVal? "otext" with | .ok x => asList asStr x | .error _ => pure []
-      return { model, holds := holdsRun steps f ofiles && holdsFinal f ofiles && flags.all id && ut.isSublist ot }
+      let og : List (List GKind) ← match obs.getObjVal? "gdef" with
+        | .ok x => asList (asList (fun k => do gkindOf (← asStr k))) x
+        | .error _ => pure []
+      return { model, holds := holdsRun steps f ofiles && holdsFinal f ofiles && gdefHolds steps f ofiles og &&
+                               flags.all id && ut.isSublist ot }
 
 /-- op "markers": in = {texts}; obs = [bool] (does collectInsertMarkers pick a comment with this text up) -/
 def markers (req : Json) : R Reply := do
